@@ -149,11 +149,13 @@ class DiffEqSolver:
                  ddrFactor=lambda r: -1, drFactor=lambda r: 0,
                  rFactor=lambda r: 0, ddThetaFactor=lambda r: -1,
                  rhoFactor=lambda r: 1):
-        ddrFactor = np.vectorize(ddrFactor)
-        drFactor = np.vectorize(drFactor)
-        rFactor = np.vectorize(rFactor)
-        ddThetaFactor = np.vectorize(ddThetaFactor)
-        rhoFactor = np.vectorize(rhoFactor)
+        # The output type is fixed: otherwise it is taken from the value at
+        # the first point (an integer there would truncate all the others)
+        ddrFactor = np.vectorize(ddrFactor, otypes=[float])
+        drFactor = np.vectorize(drFactor, otypes=[float])
+        rFactor = np.vectorize(rFactor, otypes=[float])
+        ddThetaFactor = np.vectorize(ddThetaFactor, otypes=[float])
+        rhoFactor = np.vectorize(rhoFactor, otypes=[float])
         self._rhoFactor = rhoFactor
 
         # Calculate the number of points required for the Gauss-Legendre
